@@ -144,3 +144,4 @@ from tasks_inv import *  # noqa
 from tasks_sim import *  # noqa
 from tasks_parse import *  # noqa
 from tasks_dist import *  # noqa
+from tasks_stats import *  # noqa
